@@ -82,6 +82,35 @@ type opRun struct {
 	key   string // lookup key (value key or multihash bytes)
 	// what was sent where
 	sentLog []string
+	// C06: the publish RPCs (PUT_VALUE / ADD_PROVIDER) in sending order, and whether the local store already held
+	// the record / provider entry when the first of them was released ("-": none was sent)
+	pubLog     []pubRPC
+	localFirst string
+	keyMH      []byte
+	// the caller cancelled, or virtual time was advanced: publish RPCs may legitimately be cut short from then on
+	disturbed bool
+}
+
+type pubRPC struct {
+	rank int
+	tok  string
+}
+
+// localHas reports whether the local stores hold the published record / the local provider entry.
+func (o *opRun) localHas() bool {
+	switch o.a["kind"] {
+	case "putvalue":
+		r, err := o.w.d.valueStore.Get(context.Background(), o.key)
+		return err == nil && r != nil && string(r.GetValue()) == string(valBytes(o.a["value"]))
+	case "provide":
+		ps, _ := o.w.d.providerStore.GetProviders(context.Background(), o.keyMH)
+		for _, p := range ps {
+			if p.ID == o.w.h.ID() {
+				return true
+			}
+		}
+	}
+	return false
 }
 
 func reqLetter(pk *parked) string {
@@ -186,6 +215,21 @@ func (o *opRun) releaseOne(pk *parked, forceFail bool) string {
 			}
 		}
 		o.sentLog = append(o.sentLog, fmt.Sprintf("%s%d%s", l, rank, rec))
+		if l == "V" || l == "A" {
+			if o.localFirst == "-" && (o.a["kind"] == "putvalue" || o.a["kind"] == "provide") {
+				o.localFirst = "0"
+				if o.localHas() {
+					o.localFirst = "1"
+				}
+			}
+			cut := ""
+			if pk.ctx.Err() != nil && !o.disturbed {
+				// nobody cancelled and no time passed, yet this RPC's context is already dead: a real sender would
+				// not have delivered it
+				cut = "~cancelled"
+			}
+			o.pubLog = append(o.pubLog, pubRPC{rank, fmt.Sprintf("%s%d%s%s", l, rank, rec, cut)})
+		}
 	}
 	if forceFail || pk.kind == "dial" || sp.beh == 'f' || sp.beh == 'd' {
 		if pk.ctx.Err() != nil {
@@ -229,7 +273,7 @@ func errClassOp(err error) string {
 
 func runOp(c *vu.Case) {
 	a := kv(strings.Fields(c.In[0]))
-	o := &opRun{c: c, a: a, peers: map[int]opPeer{}, K: atoi(a["K"])}
+	o := &opRun{c: c, a: a, peers: map[int]opPeer{}, K: atoi(a["K"]), localFirst: "-"}
 	n := atoi(a["n"])
 	kind := a["kind"]
 	var keyCid cid.Cid
@@ -244,10 +288,23 @@ func runOp(c *vu.Case) {
 	default:
 		keyCid = cid.NewCidV1(cid.Raw, opKeyMH(a["key"]))
 		o.key = string(keyCid.Hash())
+		o.keyMH = keyCid.Hash()
 	}
 	opts := []Option{BucketSize(o.K), Concurrency(atoi(a["a"])), Resiliency(atoi(a["b"])), disableFixLowPeersRoutine(c.T)}
 	if a["opt"] == "1" {
 		opts = append(opts, EnableOptimisticProvide())
+	}
+	if a["filt"] == "1" {
+		// the configured address filter drops private (10.x) addresses
+		opts = append(opts, AddressFilter(func(in []ma.Multiaddr) []ma.Multiaddr {
+			var out []ma.Multiaddr
+			for _, m := range in {
+				if !strings.HasPrefix(m.String(), "/ip4/10.") {
+					out = append(out, m)
+				}
+			}
+			return out
+		}))
 	}
 	if kind == "findpeer" {
 		// the key of a peer search is the peer id: rank the pool against the target's own id
@@ -265,8 +322,8 @@ func runOp(c *vu.Case) {
 	w.d.shuffle = func(int, func(int, int)) {}
 	if a["addrs"] != "-" && a["addrs"] != "" {
 		var addrs []ma.Multiaddr
-		for i := range splitNonEmpty(a["addrs"], ",") {
-			addrs = append(addrs, vAddr(5000+i, 8, false))
+		for i, cl := range a["addrs"] { // one letter per advertised address: r = private, anything else public
+			addrs = append(addrs, vAddr(5000+i, 8, cl == 'r'))
 		}
 		w.h.SetAddrs(addrs)
 	}
@@ -437,9 +494,11 @@ func runOp(c *vu.Case) {
 		case "cancel":
 			cancel()
 			cancelled = true
+			o.disturbed = true
 			settle()
 			out = "inflight=" + o.parkedStr()
 		case "adv":
+			o.disturbed = true
 			time.Sleep(time.Duration(atoi(f[1])) * time.Second)
 			settle()
 			out = "inflight=" + o.parkedStr()
@@ -462,6 +521,7 @@ func runOp(c *vu.Case) {
 			drainAll(false)
 			if !res.returned {
 				// let every timer of the operation run out (virtual time)
+				o.disturbed = true
 				time.Sleep(5 * time.Minute)
 				settle()
 				drainAll(false)
@@ -475,6 +535,10 @@ func runOp(c *vu.Case) {
 			if len(late) > 0 {
 				c.In[i] = "finish late=" + strings.Join(late, ",")
 			}
+			lh := 0
+			if o.localHas() {
+				lh = 1
+			}
 			w.d.Close()
 			settle()
 			b := func(x bool) int {
@@ -487,8 +551,15 @@ func runOp(c *vu.Case) {
 			// bubble end in a deadlock report, which execOp records
 			leak := 0
 			sort.Strings(res.provs)
-			out = fmt.Sprintf("returned=%d closed=%d leak=%d err=%s vals=[%s] provs=[%s] pseq=[%s] peers=%s sent=[%s]", b(res.returned), b(res.closed),
-				leak, errClassOp(res.err), strings.Join(res.vals, ","), strings.Join(res.provs, ","), strings.Join(res.pseq, ","), intList(res.peers), strings.Join(o.sentLog, ","))
+			sort.SliceStable(o.pubLog, func(x, y int) bool { return o.pubLog[x].rank < o.pubLog[y].rank })
+			var recips []string
+			for _, pr := range o.pubLog {
+				recips = append(recips, pr.tok)
+			}
+
+			out = fmt.Sprintf("returned=%d closed=%d leak=%d err=%s vals=[%s] provs=[%s] pseq=[%s] peers=%s sent=[%s] recipients=[%s] localfirst=%s localhas=%d", b(res.returned), b(res.closed),
+				leak, errClassOp(res.err), strings.Join(res.vals, ","), strings.Join(res.provs, ","), strings.Join(res.pseq, ","), intList(res.peers), strings.Join(o.sentLog, ","),
+				strings.Join(recips, ","), o.localFirst, lh)
 		}
 		c.Out = append(c.Out, out)
 	}
@@ -593,14 +664,22 @@ func genOpCase(r *vu.RNG, c *vu.Case, kinds []string) {
 	if kind == "provide" && r.Bool() {
 		opt = 1
 	}
-	addrs := "a"
-	if kind == "provide" && r.Chance(1, 8) {
-		addrs = "-"
+	addrs, filt := "u", 0
+	if kind == "provide" {
+		addrs = []string{"u", "uu", "ur", "r", "rur", "rr", "-", "uru"}[r.Intn(8)]
+		filt = r.Intn(2)
+	}
+	if kind == "putvalue" && r.Chance(1, 3) {
+		local = []string{"r1", "r2", "r3", "r4", "bad"}[r.Intn(5)]
+	}
+	value := fmt.Sprintf("r%d", r.Range(1, 5))
+	if kind == "putvalue" && r.Chance(1, 12) {
+		value = "bad"
 	}
 	warm := []string{"small", "big"}[r.Intn(2)]
-	hdr := fmt.Sprintf("op kind=%s warm=%s n=%d key=%d K=%d a=%d b=%d quorum=%d count=%d target=%d value=r%d local=%s opt=%d addrs=%s rt=%s peers=%s",
+	hdr := fmt.Sprintf("op kind=%s warm=%s n=%d key=%d K=%d a=%d b=%d quorum=%d count=%d target=%d value=%s local=%s opt=%d addrs=%s filt=%d rt=%s peers=%s",
 		kind, warm, n, c.Idx, K, r.Range(1, K+2), r.Range(1, K+2), []int{0, 0, 1, 2, K}[r.Intn(5)], []int{0, 1, 2, 3, K}[r.Intn(5)],
-		r.Intn(n), r.Range(1, 5), local, opt, addrs, strings.Join(rt, ","), genOpNetwork(r, n, K, fault, withVals, withProvs))
+		r.Intn(n), value, local, opt, addrs, filt, strings.Join(rt, ","), genOpNetwork(r, n, K, fault, withVals, withProvs))
 	c.In = append(c.In, hdr)
 	steps := r.Range(0, 3*n+4)
 	cancelAt := -1
@@ -673,6 +752,14 @@ func TestVerifC08(t *testing.T) {
 	vu.Run(t, vu.Config{Prop: "C08", QuickN: 1500, ThoroughN: 40000,
 		Gen: func(r *vu.RNG, c *vu.Case) bool {
 			genOpCase(r, c, []string{"findproviders", "findprovidersasync", "findprovidersasync"})
+			return true
+		}, Exec: execOp})
+}
+
+func TestVerifC06(t *testing.T) {
+	vu.Run(t, vu.Config{Prop: "C06", QuickN: 1500, ThoroughN: 40000,
+		Gen: func(r *vu.RNG, c *vu.Case) bool {
+			genOpCase(r, c, []string{"putvalue", "provide", "provide", "searchvalue", "getvalue"})
 			return true
 		}, Exec: execOp})
 }
